@@ -31,6 +31,7 @@ type project struct {
 	all   bool // register every type on every type as well (not only on the root)
 	nest  bool // register the first type on the root only, the second on the first, ... (a chain of registrations)
 	share bool // one object per type and per rule for all the schemas of a history that have the same types and rules
+	optdef bool // every schema and type is created with AreKeysOptionalByDefault
 }
 
 // parseProject reads: <hex root> {T <hexname> J|R <hexbody>} {E <hexname> <hexbody>} [all]
@@ -53,6 +54,9 @@ func parseProject(a []string) (project, []string) {
 			i++
 		case "share":
 			p.share = true
+			i++
+		case "optdef":
+			p.optdef = true
 			i++
 		case "N":
 			p.name = string(unhex(a[i+1]))
@@ -96,6 +100,9 @@ func (p project) rule(r typeDef) *enum.Enum {
 
 func (p project) newSchema(name string, body []byte) (*jschema.JSchema, error) {
 	s := jschema.New(name, append([]byte(nil), body...))
+	if p.optdef {
+		s.AreKeysOptionalByDefault = true
+	}
 	for _, r := range p.rules {
 		if err := s.AddRule(r.name, p.rule(r)); err != nil {
 			return s, fmt.Errorf("addrule:%s", errAt(err))
